@@ -390,6 +390,9 @@ pub struct GenCfg {
     pub big_pct: u64,
     /// probability (percent) that the model comes from the structured family (`gen_model_sym`)
     pub sym_pct: u64,
+    /// probability (percent) that a domain is placed so that it has negative and positive values
+    /// (sign case splits of the arithmetic propagators)
+    pub straddle_pct: u64,
 }
 
 impl Default for GenCfg {
@@ -411,6 +414,7 @@ impl Default for GenCfg {
             plant_pct: 50,
             big_pct: 0,
             sym_pct: 20,
+            straddle_pct: 0,
         }
     }
 }
@@ -447,14 +451,18 @@ impl<'a> Gen<'a> {
         }
         let r = self.rng.below(100);
         let c = self.cfg.centre;
-        let lb = c + self.rng.i32(-6, 5);
-        let width = if r < 10 {
+        let mut lb = c + self.rng.i32(-6, 5);
+        let straddle = self.cfg.straddle_pct > 0 && self.rng.below(100) < self.cfg.straddle_pct;
+        let width = if r < 10 && !straddle {
             0
         } else if r < 28 {
             1
         } else {
             self.rng.i32(2, self.cfg.max_width.max(2))
         };
+        if straddle {
+            lb = -(width / 2) - self.rng.i32(0, 1);
+        }
         let mut values: Vec<i32> = (lb..=lb + width).collect();
         let mut kind = VarKind::Interval;
         if values.len() >= 3 && self.rng.chance(35, 100) {
